@@ -291,7 +291,20 @@ type asmRun struct {
 	queries []string
 }
 
-func snapshot(e *asm.Emitter, names []string) string {
+// observerPanic is set when one of the read-only observers (Len, PC, Bytes, Flags, GetLabel) panicked
+var observerPanic string
+
+func snapshot(e *asm.Emitter, names []string) (out string) {
+	defer func() {
+		if r := recover(); r != nil {
+			observerPanic = fmt.Sprint(r)
+			out = "observer-panic: " + observerPanic
+		}
+	}()
+	return snapshot0(e, names)
+}
+
+func snapshot0(e *asm.Emitter, names []string) string {
 	var labs []string
 	for _, n := range names {
 		if v, ok := e.GetLabel(n); ok {
@@ -307,6 +320,19 @@ func snapshot(e *asm.Emitter, names []string) string {
 	}
 	return fmt.Sprintf("n=%x pc=%x fl=%x m16=%s x16=%s base=%x b=%s lab=%s", e.Len(), e.PC(), uint8(e.Flags()), b01(e.IsM16bit()), b01(e.IsX16bit()), e.GetBase(),
 		hex.EncodeToString(e.Bytes()), strings.Join(labs, ","))
+}
+
+// listings renders both listings of an emitter (parsed records), "panic" / "error" when they fail
+func listings(e *asm.Emitter) string {
+	var hb, tb bytes.Buffer
+	var e1, e2 error
+	if safe(func() { e1 = e.WriteHexTo(&hb); e2 = e.WriteTextTo(&tb) }) {
+		return "panic"
+	}
+	if e1 != nil || e2 != nil {
+		return "error"
+	}
+	return parseHexListing(hb.String()) + "|" + parseTextListing(tb.String())
 }
 
 func labelNames(c asmCase) []string {
@@ -338,6 +364,7 @@ func execAsm(c asmCase) asmRun {
 	orig := &emState{e: asm.NewEmitter(mkTarget(c.cap), c.text), labels: map[string]uint32{}}
 	var clone *emState
 	onClone := false
+	origAtClone := "" // what the original looked like when the live clone was made (C16: unaffected until Append)
 	var run asmRun
 	cur := func() *emState {
 		if onClone && clone != nil {
@@ -350,227 +377,271 @@ func execAsm(c asmCase) asmRun {
 	dry := asm.NewEmitter(nil, false)
 	dryLive := c.cap >= 0
 	for _, o := range c.ops {
-		s := cur()
-		e := s.e
-		res := ""
-		switch o.kind {
-		case 'I', 'B', 'L':
-			before := snapshot(e, names)
-			pc := e.PC()
-			len0 := e.Len()
-			bytes0 := append([]byte{}, e.Bytes()...)
-			var p bool
+		o := o
+		func() {
+			// a panic of the library inside an observer or a call that is not expected to refuse is part of the result
+			defer func() {
+				if r := recover(); r != nil {
+					for _, pr := range []string{"C03", "C16", "C19"} {
+						complain(pr, fmt.Sprintf("the emitter panicked outside a refusable call, at %s: %v", o, r))
+					}
+					run.out = append(run.out, "panic")
+				}
+			}()
+			s := cur()
+			e := s.e
+			res := ""
 			switch o.kind {
-			case 'I':
-				p = callMethod(e, *o.m, o.args, o.label)
-			case 'B':
-				// the caller owns the slice it passes: it is scribbled over right after the call (streaming records through one
-				// scratch buffer), so an emitter that keeps a reference instead of a copy shows stale bytes in its listing
-				scratch := append([]byte{}, o.data...)
-				p = safe(func() { e.EmitBytes(scratch) })
-				for i := range scratch {
-					scratch[i] ^= 0xA5
-				}
-			case 'L':
-				p = safe(func() { e.Label(o.label) })
-			}
-			if p {
-				res = "refused"
-				// C19: refused => bytes, length, PC and labels exactly as before (tracked flags may change, see DESIGN)
-				after := snapshot(e, names)
-				strip := func(s string) string { // drop the fl/m16/x16 fields
-					f := strings.Fields(s)
-					return f[0] + " " + f[1] + " " + f[5] + " " + f[6] + " " + f[7]
-				}
-				if strip(before) != strip(after) {
-					complain("C19", fmt.Sprintf("refused %s changed bytes/len/pc/labels: %s -> %s", o, before, after))
-				}
-				if s == orig && clone == nil {
-					dryLive = false // the twin only mirrors histories in which the real emitter accepts everything
-				}
-			} else {
-				res = "ok"
-				if o.kind == 'L' {
-					res = "ok " + strconv.FormatUint(uint64(pc), 16)
-					if old, dup := s.labels[o.label]; dup {
-						complain("C06", fmt.Sprintf("label %q defined at %x was accepted again at %x: its references have no unique target", o.label, old, pc))
-					}
-					s.labels[o.label] = pc
-				}
-				if o.kind == 'I' {
-					// C03: Len() and PC() advance by exactly the emitted length (2..4 bytes, never a wrapped or stale address)
-					if adv := e.PC() - pc; adv < 1 || adv > 4 || (e.Cap() > 0 && int(adv) != e.Len()-len0) {
-						complain("C03", fmt.Sprintf("accepted %s: PC went %x -> %x while Len() grew by %d", o, pc, e.PC(), e.Len()-len0))
-					}
-					s.starts = append(s.starts, pc)
-					if len(o.m.widths) == 1 && o.m.widths[0] == 0 {
-						wide := e.PC()-pc == 3
-						s.refs = append(s.refs, refRec{o.label, pc + 1, wide})
-					}
-				}
-				hasTarget := (s == orig && c.cap >= 0) || (s != orig && e.Cap() > 0)
-				if hasTarget {
-					if e.Len() > e.Cap() {
-						complain("C19", fmt.Sprintf("Len %d exceeds Cap %d", e.Len(), e.Cap()))
-					}
-					// all-or-nothing: an accepted emission stores every byte (length grows by what the PC advanced)
-					if o.kind != 'L' && (e.Len()-len0 != int(e.PC()-pc) || !bytes.HasPrefix(e.Bytes(), bytes0)) {
-						complain("C19", fmt.Sprintf("accepted %s stored %d bytes but advanced the PC by %d (partial emission)", o, e.Len()-len0, e.PC()-pc))
-					}
-					if o.kind == 'B' && !bytes.Equal(e.Bytes()[len0:], o.data) {
-						complain("C19", fmt.Sprintf("accepted data block is not what Bytes() shows"))
-					}
-				}
-			}
-			if s == orig && clone == nil && dryLive {
+			case 'I', 'B', 'L':
+				before := snapshot(e, names)
+				pc := e.PC()
+				len0 := e.Len()
+				flagsBefore := uint8(e.Flags())
+				bytes0 := append([]byte{}, e.Bytes()...)
+				var p bool
 				switch o.kind {
 				case 'I':
-					callMethod(dry, *o.m, o.args, o.label)
+					p = callMethod(e, *o.m, o.args, o.label)
 				case 'B':
-					safe(func() { dry.EmitBytes(o.data) })
-				case 'L':
-					safe(func() { dry.Label(o.label) })
-				}
-				if !p {
-					a, b := strings.Fields(snapshot(e, names)), strings.Fields(snapshot(dry, names))
-					if a[1] != b[1] || a[2] != b[2] || a[7] != b[7] {
-						complain("C19", fmt.Sprintf("dry-run emitter diverges after %s: real %s %s %s, dry %s %s %s", o, a[1], a[2], a[7], b[1], b[2], b[7]))
+					// the caller owns the slice it passes: it is scribbled over right after the call (streaming records through one
+					// scratch buffer), so an emitter that keeps a reference instead of a copy shows stale bytes in its listing
+					scratch := append([]byte{}, o.data...)
+					p = safe(func() { e.EmitBytes(scratch) })
+					for i := range scratch {
+						scratch[i] ^= 0xA5
 					}
+				case 'L':
+					p = safe(func() { e.Label(o.label) })
 				}
-			}
-		case 'C':
-			e.Comment(o.label)
-			res = "ok"
-		case 'S':
-			e.SetBase(o.addr)
-			if s == orig && clone == nil {
-				dry.SetBase(o.addr)
-			}
-			res = "ok"
-		case 'F':
-			before := append([]byte{}, e.Bytes()...)
-			var err error
-			if safe(func() { err = e.Finalize() }) {
-				res = "crash"
-				break
-			}
-			after := e.Bytes()
-			// C06 oracle, from the harness's own bookkeeping
-			wantOK := true
-			exp := append([]byte{}, before...)
-			operand := map[int]bool{}
-			base := e.GetBase()
-			for _, r := range s.refs {
-				idx := int(r.at - base)
-				operand[idx] = true
-				if r.wide {
-					operand[idx+1] = true
-				}
-				t, def := s.labels[r.label]
-				if !def {
-					wantOK = false
-					continue
-				}
-				if r.wide {
-					if idx+1 < len(exp) {
-						exp[idx], exp[idx+1] = byte(t), byte(t>>8)
+				if p {
+					res = "refused"
+					// C19: refused => bytes, length, PC and labels exactly as before (tracked flags may change, see DESIGN)
+					after := snapshot(e, names)
+					strip := func(s string) string { // drop the fl/m16/x16 fields
+						f := strings.Fields(s)
+						return f[0] + " " + f[1] + " " + f[5] + " " + f[6] + " " + f[7]
+					}
+					if strip(before) != strip(after) {
+						complain("C19", fmt.Sprintf("refused %s changed bytes/len/pc/labels: %s -> %s", o, before, after))
+					}
+					if s == orig && clone == nil {
+						dryLive = false // the twin only mirrors histories in which the real emitter accepts everything
 					}
 				} else {
-					d := int64(t) - int64(r.at+1)
-					if d > 127 || d < -128 {
+					res = "ok"
+					if o.kind == 'L' {
+						res = "ok " + strconv.FormatUint(uint64(pc), 16)
+						if old, dup := s.labels[o.label]; dup {
+							complain("C06", fmt.Sprintf("label %q defined at %x was accepted again at %x: its references have no unique target", o.label, old, pc))
+						}
+						s.labels[o.label] = pc
+					}
+					if o.kind == 'I' {
+						// C03: Len() and PC() advance by exactly the emitted length (2..4 bytes, never a wrapped or stale address)
+						if adv := e.PC() - pc; adv < 1 || adv > 4 || (e.Cap() > 0 && int(adv) != e.Len()-len0) {
+							complain("C03", fmt.Sprintf("accepted %s: PC went %x -> %x while Len() grew by %d", o, pc, e.PC(), e.Len()-len0))
+						}
+						if !(len(o.m.widths) == 1 && o.m.widths[0] == 0) && e.Cap() > 0 && e.Len() >= len0 {
+							fresh := asm.NewEmitter(make([]byte, 8), false)
+							fresh.AssumeSEP(asm.Flags(flagsBefore))
+							fresh.AssumeREP(^asm.Flags(flagsBefore))
+							if !callMethod(fresh, *o.m, o.args, o.label) && !bytes.Equal(fresh.Bytes(), e.Bytes()[len0:]) {
+								complain("C03", fmt.Sprintf("%s appended %x here but emits %x into a fresh emitter with the same tracked widths", o, e.Bytes()[len0:], fresh.Bytes()))
+							}
+						}
+						s.starts = append(s.starts, pc)
+						if len(o.m.widths) == 1 && o.m.widths[0] == 0 {
+							wide := e.PC()-pc == 3
+							s.refs = append(s.refs, refRec{o.label, pc + 1, wide})
+						}
+					}
+					hasTarget := (s == orig && c.cap >= 0) || (s != orig && e.Cap() > 0)
+					if hasTarget {
+						if e.Len() > e.Cap() {
+							complain("C19", fmt.Sprintf("Len %d exceeds Cap %d", e.Len(), e.Cap()))
+						}
+						// all-or-nothing: an accepted emission stores every byte (length grows by what the PC advanced)
+						if o.kind != 'L' && (e.Len()-len0 != int(e.PC()-pc) || !bytes.HasPrefix(e.Bytes(), bytes0)) {
+							complain("C19", fmt.Sprintf("accepted %s stored %d bytes but advanced the PC by %d (partial emission)", o, e.Len()-len0, e.PC()-pc))
+						}
+						if o.kind == 'B' && !bytes.Equal(e.Bytes()[len0:], o.data) {
+							complain("C19", fmt.Sprintf("accepted data block is not what Bytes() shows"))
+						}
+					}
+				}
+				if s == orig && clone == nil && dryLive {
+					switch o.kind {
+					case 'I':
+						callMethod(dry, *o.m, o.args, o.label)
+					case 'B':
+						safe(func() { dry.EmitBytes(o.data) })
+					case 'L':
+						safe(func() { dry.Label(o.label) })
+					}
+					if !p {
+						a, b := strings.Fields(snapshot(e, names)), strings.Fields(snapshot(dry, names))
+						if a[1] != b[1] || a[2] != b[2] || a[7] != b[7] {
+							complain("C19", fmt.Sprintf("dry-run emitter diverges after %s: real %s %s %s, dry %s %s %s", o, a[1], a[2], a[7], b[1], b[2], b[7]))
+						}
+					}
+				}
+			case 'C':
+				e.Comment(o.label)
+				res = "ok"
+			case 'S':
+				e.SetBase(o.addr)
+				if s == orig && clone == nil {
+					dry.SetBase(o.addr)
+				}
+				res = "ok"
+			case 'F':
+				before := append([]byte{}, e.Bytes()...)
+				var err error
+				if safe(func() { err = e.Finalize() }) {
+					res = "crash"
+					break
+				}
+				after := e.Bytes()
+				// C06 oracle, from the harness's own bookkeeping
+				wantOK := true
+				exp := append([]byte{}, before...)
+				operand := map[int]bool{}
+				base := e.GetBase()
+				for _, r := range s.refs {
+					idx := int(r.at - base)
+					operand[idx] = true
+					if r.wide {
+						operand[idx+1] = true
+					}
+					t, def := s.labels[r.label]
+					if !def {
 						wantOK = false
 						continue
 					}
-					if idx < len(exp) {
-						exp[idx] = byte(int8(d))
+					if r.wide {
+						if idx+1 < len(exp) {
+							exp[idx], exp[idx+1] = byte(t), byte(t>>8)
+						}
+					} else {
+						d := int64(t) - int64(r.at+1)
+						if d > 127 || d < -128 {
+							wantOK = false
+							continue
+						}
+						if idx < len(exp) {
+							exp[idx] = byte(int8(d))
+						}
 					}
 				}
-			}
-			switch {
-			case err == nil:
-				res = "ok"
-				if !wantOK {
-					complain("C06", "Finalize succeeded although a reference is unresolved or out of range")
-				} else if !bytes.Equal(after, exp) {
-					complain("C06", fmt.Sprintf("finalized bytes %x, expected %x", after, exp))
-				}
-			default:
-				if strings.Contains(err.Error(), "could not resolve") {
-					res = "unresolved"
-				} else {
-					res = "toofar"
-				}
-				if wantOK {
-					complain("C06", "Finalize failed although every reference is defined and in range: "+err.Error())
-				}
-				for i := range after {
-					if after[i] != before[i] && !operand[i] {
-						complain("C06", fmt.Sprintf("failed Finalize changed byte %d which is not an operand of a label reference", i))
+				switch {
+				case err == nil:
+					res = "ok"
+					if !wantOK {
+						complain("C06", "Finalize succeeded although a reference is unresolved or out of range")
+					} else if !bytes.Equal(after, exp) {
+						complain("C06", fmt.Sprintf("finalized bytes %x, expected %x", after, exp))
+					}
+				default:
+					if strings.Contains(err.Error(), "could not resolve") {
+						res = "unresolved"
+					} else {
+						res = "toofar"
+					}
+					if wantOK {
+						complain("C06", "Finalize failed although every reference is defined and in range: "+err.Error())
+					}
+					for i := range after {
+						if after[i] != before[i] && !operand[i] {
+							complain("C06", fmt.Sprintf("failed Finalize changed byte %d which is not an operand of a label reference", i))
+						}
 					}
 				}
-			}
-			if err == nil {
-				s.refs = nil
-			}
-		case 'K':
-			capN := -1
-			if o.label != "nil" {
-				v, _ := strconv.ParseInt(o.label, 16, 32)
-				capN = int(v)
-			}
-			clone = &emState{e: orig.e.Clone(mkTarget(capN)), labels: map[string]uint32{}, refs: append([]refRec{}, orig.refs...)}
-			for k, v := range orig.labels {
-				clone.labels[k] = v
-			}
-			onClone = true
-			res = "ok"
-		case 'T':
-			onClone = o.label == "c"
-			res = "ok"
-		case 'A':
-			if clone == nil {
-				res = "noclone"
-				break
-			}
-			before := snapshot(orig.e, names)
-			if safe(func() { orig.e.Append(clone.e) }) {
-				res = "refused"
-				if snapshot(orig.e, names) != before {
-					complain("C16", "refused Append modified the original")
+				if err == nil {
+					s.refs = nil
 				}
-			} else {
+			case 'K':
+				capN := -1
+				if o.label != "nil" {
+					v, _ := strconv.ParseInt(o.label, 16, 32)
+					capN = int(v)
+				}
+				clone = &emState{e: orig.e.Clone(mkTarget(capN)), labels: map[string]uint32{}, refs: append([]refRec{}, orig.refs...)}
+				origAtClone = snapshot(orig.e, names)
+				if c.text {
+					origAtClone += "|" + listings(orig.e)
+				}
+				for k, v := range orig.labels {
+					clone.labels[k] = v
+				}
+				onClone = true
 				res = "ok"
-				orig.refs, orig.labels = clone.refs, clone.labels
-				orig.starts = append(orig.starts, clone.starts...)
-			}
-			onClone = false
-		case 'Q':
-			res = snapshot(e, names)
-			run.queries = append(run.queries, res)
-		case 'H', 'X':
-			var buf bytes.Buffer
-			before := snapshot(e, names)
-			var err error
-			if safe(func() {
-				if o.kind == 'H' {
-					err = e.WriteHexTo(&buf)
-				} else {
-					err = e.WriteTextTo(&buf)
+			case 'T':
+				onClone = o.label == "c"
+				res = "ok"
+			case 'A':
+				if clone == nil {
+					res = "noclone"
+					break
 				}
-			}) {
-				res = "panic"
-			} else if err != nil {
-				res = "error"
-			} else if o.kind == 'H' {
-				res = parseHexListing(buf.String())
-			} else {
-				res = parseTextListing(buf.String())
+				before := snapshot(orig.e, names)
+				if safe(func() { orig.e.Append(clone.e) }) {
+					res = "refused"
+					if snapshot(orig.e, names) != before {
+						complain("C16", "refused Append modified the original")
+					}
+				} else {
+					res = "ok"
+					orig.refs, orig.labels = clone.refs, clone.labels
+					orig.starts = append(orig.starts, clone.starts...)
+				}
+				onClone = false
+			case 'Q':
+				res = snapshot(e, names)
+				run.queries = append(run.queries, res)
+			case 'H', 'X':
+				var buf bytes.Buffer
+				before := snapshot(e, names)
+				var err error
+				if safe(func() {
+					if o.kind == 'H' {
+						err = e.WriteHexTo(&buf)
+					} else {
+						err = e.WriteTextTo(&buf)
+					}
+				}) {
+					res = "panic"
+				} else if err != nil {
+					res = "error"
+				} else if o.kind == 'H' {
+					res = parseHexListing(buf.String())
+				} else {
+					res = parseTextListing(buf.String())
+				}
+				if snapshot(e, names) != before {
+					complain("C15", "producing a listing altered the program")
+				}
 			}
-			if snapshot(e, names) != before {
-				complain("C15", "producing a listing altered the program")
+			if observerPanic != "" {
+				for _, pr := range []string{"C03", "C16", "C19"} {
+					complain(pr, fmt.Sprintf("an observer (Len / PC / Bytes / Flags / GetLabel) panicked after %s: %s", o, observerPanic))
+				}
+				observerPanic = ""
 			}
-		}
-		run.out = append(run.out, res)
+			if clone != nil && s == clone && origAtClone != "" && o.kind != 'A' {
+				now := snapshot(orig.e, names)
+				if c.text {
+					now += "|" + listings(orig.e)
+				}
+				if now != origAtClone {
+					complain("C16", fmt.Sprintf("the original emitter changed although only its clone was used (%s): %s -> %s", o, clip(origAtClone, 200), clip(now, 200)))
+					origAtClone = now
+				}
+			}
+			if o.kind == 'A' {
+				origAtClone = ""
+			}
+			run.out = append(run.out, res)
+		}()
 	}
 	if !targetsIntact() {
 		complain("C19", "bytes outside the target buffer were written (the target was a window into a larger array)")
